@@ -25,6 +25,7 @@ func (c *Clause) label(i int) string {
 }
 
 type SpecFn struct {
+	Pkg    string
 	Name   string
 	Params []string
 	Body   *Node
@@ -174,6 +175,7 @@ func (cs *ContractSet) parseFile(path, pkg string) error {
 			if err != nil {
 				return perr(d, err)
 			}
+			sf.Pkg = pkg
 			if cur != nil {
 				cur.Specs[sf.Name] = sf
 			} else if lem != nil {
